@@ -86,6 +86,18 @@ pub broadcast proof fn lemma_occurs_unshift(h: Seq<u8>, n: Seq<u8>, from: int, k
     lemma_occurs_shift(h, n, from, k - from);
 }
 
+// the same fact over byte sequences (for String values, whose bytes are encode_utf8(view))
+pub open spec fn ascii_bytes(b: Seq<u8>) -> bool { forall|j: int| 0 <= j < b.len() ==> b[j] < 128 }
+pub broadcast axiom fn ascii_bytes_boundary(b: Seq<u8>, i: int)
+    requires ascii_bytes(b), 0 <= i <= b.len()
+    ensures #[trigger] vstd::utf8::is_char_boundary(b, i);
+pub open spec fn sb(s: String) -> Seq<u8> { vstd::utf8::encode_utf8(s@) }
+
+// an ASCII byte is a whole character: there is a character boundary on both sides of it
+pub broadcast axiom fn ascii_byte_boundaries(s: &str, i: int)
+    requires 0 <= i < s.spec_bytes().len(), #[trigger] s.spec_bytes()[i] < 128
+    ensures vstd::utf8::is_char_boundary(s.spec_bytes(), i), vstd::utf8::is_char_boundary(s.spec_bytes(), i + 1);
+
 // both ends of any string are character boundaries
 pub broadcast axiom fn str_ends_are_boundaries(s: &str)
     ensures #![trigger s.spec_bytes()]
